@@ -302,4 +302,18 @@ def havingFilter (S : Strs) (e : HExpr) : List Row → Except HErr (List Row)
       | .error x => .error x
       | .ok out => .ok (if b then r :: out else out)
 
+/-! ### The stages after the projection, in `queryPlan.Execute`'s order -/
+
+/-- ORDER BY, then HAVING, then LIMIT (`Generated.executeStages`: orderBy, having, limit): LIMIT cuts what HAVING
+    keeps of the sorted rows. -/
+def postStages (S : Strs) (order : List (Bytes × Bool)) (having : Option HExpr) (limit : Option Int) (rows : List Row) :
+    Except HErr (List Row) :=
+  let sorted := sortRows S order rows
+  let kept := match having with
+    | some e => havingFilter S e sorted
+    | none => .ok sorted
+  kept.map fun rows => match limit with
+    | some n => limitRows n rows
+    | none => rows
+
 end BW.Model
